@@ -6,6 +6,57 @@ import os
 ROOT = os.path.dirname(os.path.dirname(os.path.abspath(__file__)))
 
 CHECKS = {
+    "C06": dict(
+        cat="exploration",
+        text="All 39 response classes reachable from command classes (plus the secondary byte classes of part 205 and "
+             "the public base classes) are instantiated on all 513 bus outcomes (none, clean 0..255, framing error "
+             "0..255) and compared with per-family reference semantics: raw frame passed through, yes/no, integer vs "
+             "non-integer marker distinguishable from every clean reading, MASK at 255, bitmap names and named bits, "
+             "generic/enum MissingResponse/ResponseError/ValueError behaviour, str() never raising MissingResponse or "
+             "ResponseError; 12 kinds of non-frame constructor argument must raise TypeError. The space is enumerated "
+             "completely in both tiers.",
+        note="Families are recognised by the public base classes of dali.command; derived convenience properties "
+             "(mode, control_type, ...) are outside the property and only reported.",
+        tech="runtime monitoring: exhaustive outcome enumeration against reference semantics; icontract postcondition "
+             "on Response.__init__",
+        ref="DESIGN.md §4 C06"),
+    "C07": dict(
+        cat="exploration",
+        text="The real Commissioning generator runs against a specification model of IEC 62386-102 gear (0..70 units, "
+             "pre-existing and duplicate addresses, permitted subsets, readdress / dry-run, units that do not store or "
+             "verify) under seven adversarial random-address schedules (tiny spaces, extremes 0/0xFFFFFF, pair clashes "
+             "for k rounds, re-use of earlier draws, withdrawn units re-drawing an enabled unit's value). Post-state "
+             "predicates: terminated within an analytic command bound, all units out of initialisation, participants "
+             "addressed from the permitted set while it lasts, all addresses distinct, non-participants and dry runs "
+             "unchanged, ProgramShortAddressFailure for faulty units. 400 buses quick, 20k thorough.",
+        note="Trusts models/gear102.py (reading of 102:2014 9.14/11.7) and models/bus.py (driver semantics: send-twice, "
+             "collision => framing error). One known finding is listed in known_findings.json.",
+        tech="runtime monitoring: real generator driven against a specification model with an adversarial scheduler; "
+             "post-state and command-bound oracles; mechanism monitor inside the model",
+        ref="DESIGN.md §4 C07"),
+    "C08": dict(
+        cat="exploration",
+        text="QueryDeviceTypes, QueryGroups and SetGroups run (a) against model gear for device-type lists of length 0..8 "
+             "(always including lists with type 0), every 4th (thorough: every) of the 2^16 group sets, and (current, "
+             "requested) pairs x short/int/group/broadcast/unaddressed destinations with bystander units; (b) fed every "
+             "answer stream of length <= 4 (thorough 6) over {none, garbled, 0, 1, 6, 6, 254, 255}, the last answer "
+             "repeating for ever. Oracle: exact list/set for conforming streams, DALISequenceError within 300 commands "
+             "for silence / framing error / repeated / non-ascending / never-ending, final membership == request and "
+             "exactly the necessary changes for short destinations.",
+        note="Trusts the stream classifier (what a conforming unit may answer) and models/gear102.py.",
+        tech="runtime monitoring: exhaustive adversarial answer streams + specification-model post-state oracle",
+        ref="DESIGN.md §4 C08"),
+    "C12": dict(
+        cat="exploration",
+        text="Every event-space frame header (8192 scheme/field combinations) x 40 data values (thorough: all 2^23 "
+             "frames) is decoded and compared with an independent 103-Table-3 slicer: class per parts 301/303/304, "
+             "exactly the source fields of the scheme, instance type, the 10 data bits; all (address, instance) pairs x "
+             "instance types 0..31 x data values are decoded under maps with and without the entry, compared with the "
+             "device-scheme twin frame, and retried via retry_decode; maps built through ints, address objects, modules "
+             "and an initial dict must be the same mapping.",
+        note="Trusts models/events_ref.py.",
+        tech="runtime monitoring: enumerated frames against an independent reference decoder; retry/direct equivalence",
+        ref="DESIGN.md §4 C12"),
     "C01": dict(
         cat="exploration",
         text="dali.command.from_frame is executed on enumerated forward frames (quick: all 2^16 16-bit frames x 11 device "
